@@ -10,6 +10,7 @@ CONSTANTS
   MaxSendErrs = 1
   MaxResults = 1
   KindSet = {"ok", "ne"}
+  BuCap = 1
   FixF22 = FALSE
   GenHist = FALSE
 INIT Init
